@@ -145,8 +145,29 @@ def gen_late(rng, size):
     return dict(seed=rng.randint(0, 1000), mod=rng.choice([1, 3, 3, 1 << 20]), entities=ents, pools=[], uops=uops, ext=ext, focus='late')
 
 
+def gen_hugedelay(rng, size):
+    """A buffer whose minimum delay is huge (2**28 time units, exact on the grid) with a blocked exit that is released one or two ticks
+    before the second stored part is due: the overdue first part leaves, the second must stay — nothing may treat 'almost due' as due
+    (C05: never before the minimum delay; the allowance is one rounding unit of the clock, not a relative tolerance)."""
+    D = 1 << 31
+    c = rng.choice([4, 8, 8, 16])
+    n = rng.choice([2, 3])
+    ents = [dict(kind='source', cycle=c, budget=n, gen_value=8, gen_quality=8, gen_batch=0),
+            dict(kind='buffer', up=[1], min_delay=D, capacity=None),
+            dict(kind='sink', cycle=0, collect=True, up=[2])]
+    early = rng.choice([1, 1, 2, 5])
+    t_unblock = 2 * c + D - early          # the second part arrives at 2c
+    uops = [[['block', 3, 1]], [['block', 3, 0]]]
+    ext = [['init'], ['at', 0, 0, 184], ['at', t_unblock, 1, rng.choice([32, 184])]]
+    ext += [['step']] * rng.randint(8, 20)
+    ext.append(['run', D + 8 * c])
+    return dict(seed=rng.randint(0, 1000), mod=rng.choice([1, 3, 1 << 20]), entities=ents, pools=[], uops=uops, ext=ext, focus='hugedelay')
+
+
 def gen(rng, size='small', focus=None):
-    focus = focus or rng.choice(['plain', 'plain', 'faults', 'resources', 'buffers', 'batches', 'groups', 'gates', 'maint', 'rewire', 'mixed', 'parallel', 'late'])
+    focus = focus or rng.choice(['plain', 'plain', 'faults', 'resources', 'buffers', 'batches', 'groups', 'gates', 'maint', 'rewire', 'mixed', 'parallel', 'late', 'hugedelay'])
+    if focus == 'hugedelay':
+        return gen_hugedelay(rng, size)
     if focus == 'late':
         return gen_late(rng, size)
     if focus == 'mixed':
@@ -192,7 +213,7 @@ def gen(rng, size='small', focus=None):
         budget = rng.choice([None, None, 3, 5, 8, 12, 0])
         if c == 0:
             budget = rng.choice([2, 4, 6])
-        e = dict(kind='source', cycle=c, budget=budget, gen_value=8 * rng.choice([0, 1, 5]), gen_quality=rng.choice([0, 4, 8, 12]),
+        e = dict(kind='source', cycle=c, budget=budget, gen_value=8 * rng.choice([0, 1, 5, -2]), gen_quality=rng.choice([0, 4, 8, 12]),
                  gen_batch=(rng.choice([0, 2, 3]) if use_batches else 0))
         if use_batches and rng.random() < 0.35:
             e['gen_pattern'] = [rng.choice([0, 0, 1, 2, 3, 4, -1]) for _ in range(rng.choice([2, 3, 4, 5]))]
@@ -280,7 +301,7 @@ def gen(rng, size='small', focus=None):
                 e['batch_size'] = rng.choice([None, 2, 3, 1])
             if k == 'processor':
                 if maints:
-                    e.update(wo_dur=rng.choice([0, 8, 16, 24]), wo_cap=rng.choice([0, 8, 8, 16]), wo_cost=8 * rng.choice([0, 0, 10]))
+                    e.update(wo_dur=rng.choice([0, 8, 16, 24]), wo_cap=rng.choice([0, 8, 8, 16]), wo_cost=8 * rng.choice([0, 0, 10, -1]))
                 if use_resources and rng.random() < 0.8:
                     e['req'] = [[rng.choice([0, 1]), rng.choice([8, 8, 16, 4, 2, 12])]]
                     if rng.random() < 0.25:
@@ -394,6 +415,15 @@ def gen(rng, size='small', focus=None):
             ext.append(['at', t, new_script([['add_res', rng.choice([0, 1]), 8 * rng.choice([1, 1, -1, 2])]]), prio])
         else:
             ext.append(['at', t, new_script([['adjust', rng.choice(sources), rng.choice([-2, 1, 2, 3])]]), prio])
+    if use_resources and rng.random() < 0.3:
+        # a pool's capacity taken down to exactly zero (possibly while a machine holds some of it) and raised again later
+        n, cap = rng.choice(pools)
+        t1 = rng.choice([4, 8, 12, 16, 24, 32])
+        ext.append(['at', t1, new_script([['add_res', n, -cap]]), rng.choice([32, 184])])
+        ext.append(['at', t1 + rng.choice([4, 8, 16, 24]), new_script([['add_res', n, rng.choice([8, 8, 16, cap or 8])]]), rng.choice([32, 184])])
+    if cyclers and rng.random() < 0.12:
+        # a one-shot offset requested during set-up, before the simulation is initialised: it applies to the first cycle
+        ext.insert(0, ['now', ['offset', rng.choice(cyclers + sources), rng.choice([-8, -4, 4, 8, 12, 24])]])
     # drive: many single steps (lock-step after every event), then runs
     nsteps = rng.randint(20, 70) if not big else rng.randint(60, 200)
     if rng.random() < 0.3:
